@@ -18,7 +18,7 @@ import (
 )
 
 // allScripts is the mixed workload shared by the history-based checks.
-var allScripts = []string{"transfers", "staking", "delegation", "valrewards", "governance", "ons", "eth", "evidence", "olvm"}
+var allScripts = []string{"transfers", "staking", "delegation", "valrewards", "governance", "ons", "eth", "evidence", "olvm", "bid"}
 
 func tierN(tier string, quick, thorough int) int {
 	if tier == "thorough" {
@@ -125,7 +125,7 @@ func checkC01(tier string) int {
 		params := world.Params{Frankenstein: fr, NumCandidates: 3, NumEthUsers: 3, TopValidators: 5, ChainID: fmt.Sprintf("OneLedger-c01-%d", hseed)}
 		restarted := false
 		cfg := drive.Cfg{
-			Tag: "c01", Seed: hseed, Blocks: blocks, Params: params, Scripts: allScripts, Scout: true, Jumps: true, Absents: true,
+			Tag: "c01", Seed: hseed, Blocks: blocks, Params: params, Scripts: allScripts, Scout: true, Jumps: true, Absents: true, Honest: true,
 		}
 		w0, _ := world.New(params)
 		cfg.Specs = []world.NodeSpec{
